@@ -31,6 +31,7 @@ var Check = &vrt.Check{
 		"distinct = (scenario, direction, cut offset) / (scenario, side, j) / history index",
 	Assumptions: []string{
 		"a cut delivers exactly k bytes to the reader, then both ends see EOF/closed; bytes of the opposite direction still in flight are lost; two writer views are enumerated for every cut: the crossing write fails, or (buffered link) all later writes report success and the failure shows only at the next Read",
+		"storage errors and histories also run on links with flow control (1 or 64 bytes in flight); deadlines the library sets are honoured logically (a blocked call returns its timeout as soon as neither end can progress); a state in which neither end can progress and no deadline is armed is a hang",
 		"receiving policies are accept/defer only, so a reject always means the receiver already holds the message (dedup by MID)",
 		"both the in-memory reference handler and the real directory mailbox (on /dev/shm, fresh DirHandler instances per session) are exercised; the directory leg's storage error is a genuine RLIMIT_FSIZE partial write + EFBIG",
 	},
@@ -182,7 +183,10 @@ func run(c vrt.Case) vrt.Obs {
 			if side == 1 {
 				nin = len(sc.MsgsA)
 			}
-			for j := 1; j <= nin; j++ {
+			for jc := 0; jc < 3*nin; jc++ {
+				// every j on an unbounded link and on links with flow control (1 and 64 bytes in flight):
+				// there the error report to the peer meets the peer's own writes
+				j, capacity := 1+jc/3, []int{0, 1, 64}[jc%3]
 				o.Evals++
 				w := newWorld(sc)
 				st := w.a
@@ -191,8 +195,9 @@ func run(c vrt.Case) vrt.Obs {
 				}
 				st.FailAt = j
 				before := len(o.Violations)
-				res := w.session(vpipe.Plan{CutDir: vpipe.NoCut})
-				what := fmt.Sprintf("scenario %d, ProcessInbound #%d fails at station %s", p.Scenario, j, st.Name)
+				res := w.session(vpipe.Plan{CutDir: vpipe.NoCut, Capacity: capacity})
+				o.Count("logical_deadline_timeouts", int64(res.Link.Timeouts[0]+res.Link.Timeouts[1]))
+				what := fmt.Sprintf("scenario %d, ProcessInbound #%d fails at station %s (link capacity %d)", p.Scenario, j, st.Name, capacity)
 				b2fx.CheckReturned(&o, res, what)
 				b2fx.CheckSafety(&o, sc, w.lg.Events())
 				failed := 0
@@ -203,7 +208,7 @@ func run(c vrt.Case) vrt.Obs {
 				}
 				if failed > 0 {
 					o.Count("storage_errors_injected", 1)
-					o.Sig("s%d fail %s j%d", p.Scenario, st.Name, j)
+					o.Sig("s%d fail %s j%d c%d", p.Scenario, st.Name, j, capacity)
 					// the station whose handler failed must not report success
 					failing := res.A
 					if side == 1 {
@@ -246,7 +251,7 @@ func run(c vrt.Case) vrt.Obs {
 					st := []*mem.Station{w.a, w.b}[r.Intn(2)]
 					st.FailAt = 1 + r.Intn(4) // counted over the station's lifetime: may or may not be reached
 					what = fmt.Sprintf("history %d fault %d: storage error at %s call #%d", h, f, st.Name, st.FailAt)
-					res = w.session(vpipe.Plan{CutDir: vpipe.NoCut})
+					res = w.session(vpipe.Plan{CutDir: vpipe.NoCut, Capacity: []int{0, 1, 64}[r.Intn(3)]})
 					st.FailAt = 0
 				} else {
 					d := r.Intn(2)
@@ -261,7 +266,7 @@ func run(c vrt.Case) vrt.Obs {
 					if silent {
 						what += " (buffered link: writer does not notice)"
 					}
-					res = w.session(vpipe.Plan{CutDir: d, CutAt: k, CutSilent: silent})
+					res = w.session(vpipe.Plan{CutDir: d, CutAt: k, CutSilent: silent, Capacity: []int{0, 0, 1, 64}[r.Intn(4)]})
 				}
 				faults = append(faults, what)
 				b2fx.CheckReturned(&o, res, what)
